@@ -575,13 +575,22 @@ namespace cds { namespace intrusive {
             assert( iter != end());
 
             marked_data_ptr val( iter.data());
-            if ( iter.m_pNode->data.compare_exchange_strong( val, marked_data_ptr(), memory_model::memory_order_acquire, atomics::memory_order_relaxed )) {
-                --m_ItemCounter;
-                retire_data( val.ptr());
-                m_Stat.onEraseSuccess();
-                return true;
+            back_off bkoff;
+            while ( true ) {
+                marked_data_ptr cur( val );
+                if ( iter.m_pNode->data.compare_exchange_strong( cur, marked_data_ptr(), memory_model::memory_order_acquire, atomics::memory_order_relaxed )) {
+                    --m_ItemCounter;
+                    retire_data( val.ptr());
+                    m_Stat.onEraseSuccess();
+                    return true;
+                }
+                if ( cur.ptr() != val.ptr()) {
+                    // the item has been removed or replaced
+                    return false;
+                }
+                // the data is temporarily marked by a thread that is linking an adjacent item, see link_data()
+                bkoff();
             }
-            return false;
         }
 
         /// Extracts the item from the list with specified \p key
